@@ -222,7 +222,9 @@ func (c *Certificate) isValid(certType int, currentChain []*Certificate, opts *V
 		var names []string
 		if len(currentChain) > 0 && len(currentChain[0].DNSNames) > 0 {
 			names = currentChain[0].DNSNames
-		} else if len(opts.DNSName) > 0 {
+		} else if len(opts.DNSName) > 0 && !isIPLiteral(opts.DNSName) {
+			// (a host requested as an IP address is matched against IP SANs,
+			// which DNS constraints do not speak about)
 			names = []string{opts.DNSName}
 		}
 		for _, name := range names {
@@ -481,6 +483,15 @@ func toLowerCaseASCII(in string) string {
 		}
 	}
 	return string(out)
+}
+
+// isIPLiteral reports whether VerifyHostname treats h as an IP address
+// ("1.2.3.4", "::1" or, as in URLs, "[::1]").
+func isIPLiteral(h string) bool {
+	if len(h) >= 3 && h[0] == '[' && h[len(h)-1] == ']' {
+		h = h[1 : len(h)-1]
+	}
+	return net.ParseIP(h) != nil
 }
 
 // VerifyHostname returns nil if c is a valid certificate for the named host.
